@@ -430,6 +430,19 @@ func (w *walker) scalar(v ssa.Value, ctx *sx.Ctx) chain {
 		case *ssa.Call:
 			obj := calleeObj(x)
 			args := x.Call.Args
+			// the min / max builtins clamp like math.Min / math.Max
+			if b, isB := x.Call.Value.(*ssa.Builtin); isB && (b.Name() == "min" || b.Name() == "max") && len(args) == 2 {
+				switch {
+				case constOf(args[0]) != nil:
+					v = args[1]
+				case constOf(args[1]) != nil:
+					v = args[0]
+				default:
+					return fail("%s of two non-constant operands", b.Name())
+				}
+				res.clamped = true
+				continue
+			}
 			// component getter: continue on the vector
 			if a, ok := sx.AxisGetter(obj); ok {
 				vc := w.vector(args[0], a, ctx)
